@@ -4130,6 +4130,19 @@ def _parse_simple_lines(
             ):
                 i += 1
                 continue
+            if isinstance(expr_node, ast.Call) and isinstance(expr_node.func, ast.Name):
+                # a helper called as a statement still needs a variant for its argument types
+                try:
+                    _infer_expr_type(
+                        expr_node,
+                        ctx.get("var_types", {}),
+                        ctx.get("functions", {}),
+                        ctx.get("function_param_types", {}),
+                        ctx.get("function_param_orders", {}),
+                        ctx,
+                    )
+                except ValueError:
+                    pass
             try:
                 expr_c = _to_c_expr(line, vars, ctx)
             except Exception:
